@@ -1,14 +1,19 @@
 """C12: per-region GenBank files are faithful, self-consistent extracts.
 
-Two streams go through the same Coq model (fn 1 = helpers.write_to_genbank over the bio-level view):
+Two streams go through the same Coq model (fn 2 = helpers.write_to_genbank over the bio-level view: sequence, features
+and the parent's annotations as nested dicts shared by reference):
  * synthetic: Bio SeqRecords with antiSMASH location objects and stand-in RegionData, written by the real
    region.helpers.write_to_genbank into a text handle and read back with SeqIO.parse (bulk correspondence);
  * real: secmet Records (genes, protoclusters -> candidate clusters, sub-regions, prepeptides, regions) on linear and
    circular sequences; every Region.write_to_genbank(file, record=bio) -> SeqIO.parse (compared with the model) ->
    Record.from_genbank (real reload, compared with the region's content on the implementation side); the bio record
    is shared between the regions of a record as in main.write_outputs.
-The decidable specification (fn 101: sequence, features inside, numbering 1..k with consistent references,
-motif/core locations inside, parent unchanged, annotations) is evaluated in Coq on every implementation output."""
+The decidable specification (fn 102: sequence, features inside, numbering 1..k with consistent references,
+motif/core locations inside, parent features unchanged, the three antiSMASH-Data entries, the file's whole structured
+comment, parent annotations unchanged) is evaluated in Coq on every implementation output.
+A third stream (implementation only) follows the real output path of antismash.main.write_outputs: to_biopython ->
+add_antismash_comments -> region GenBank files -> summary GenBank; the summary written after the region files must be
+the one written before them (in memory for every real record; through main.write_outputs itself for a sample)."""
 import io
 import json
 import os
@@ -25,7 +30,9 @@ TYPE_NAMES = {v: k for k, v in TYPES.items()}
 BASES = "ACGT"
 
 FLAG_NAMES = ["sequence", "features_inside_extract", "numbering", "motif_and_core_locations_inside",
-              "parent_unchanged", "annotations"]
+              "parent_unchanged", "annotations", "file_structured_comment", "parent_annotations_unchanged"]
+NF = len(FLAG_NAMES)
+FN = 2            # write_to_genbank_rec (features + annotations); the specification is FN + 100
 # class of a failed flag whose guard is false (index = flag); the guards of features_inside_extract,
 # motif_and_core_locations_inside and parent_unchanged are constantly true since the repair of
 # wrapped_region_partial_feature / wrapped_region_motif_offset / wrapped_region_parent_qualifiers, and the numbering
@@ -128,6 +135,72 @@ def read_annotations(bio):
         return [kind, int(comment.get("Orig. start", -1)), int(comment.get("Orig. end", -1))]
     except ValueError:
         return [kind, -2, -2]
+
+
+NOTE_TEXTS = {"This is a single region extracted from a larger record!": 0,
+              "This is a single region extracted from a cross-origin section of a larger, circular record.": 1}
+FIXED_KEYS = {"structured_comment": 1, "antiSMASH-Data": 2, "NOTE": 3, "Orig. start": 4, "Orig. end": 5}
+
+
+class Interner:
+    """ strings of one case -> codes >= 10 (first occurrence first); the five keys the code writes are fixed """
+    def __init__(self):
+        self.codes = {}
+
+    def key(self, text):
+        if text in FIXED_KEYS:
+            return FIXED_KEYS[text]
+        return self.codes.setdefault("k:" + text, 10 + len(self.codes))
+
+    def opaque(self, text):
+        return self.codes.setdefault("v:" + text, 10 + len(self.codes))
+
+    def value(self, text):
+        """ a string of a structured-comment table -> (tag, n) """
+        if text in NOTE_TEXTS:
+            return [1, NOTE_TEXTS[text]]
+        try:
+            if str(int(text)) == text:
+                return [2, int(text)]
+        except ValueError:
+            pass
+        return [0, self.opaque(text)]
+
+
+def is_structured_comment(value):
+    return isinstance(value, dict) and all(
+        isinstance(k, str) and isinstance(t, dict) and all(isinstance(a, str) and isinstance(b, str) for a, b in t.items())
+        for k, t in value.items())
+
+
+def enc_sc(comment, interner):
+    out = [len(comment)]
+    for name, table in comment.items():
+        out += [interner.key(name), len(table)]
+        for key, val in table.items():
+            out += [interner.key(key)] + interner.value(val)
+    return out
+
+
+def enc_annots(annotations, interner):
+    """ the model's view of SeqRecord.annotations: an ordered dict; a dict of dicts of strings is a structured
+        comment, every other value is opaque (identified by its repr) """
+    out = [len(annotations)]
+    for key, value in annotations.items():
+        out.append(interner.key(key))
+        if is_structured_comment(value):
+            out += [1] + enc_sc(value, interner)
+        else:
+            out += [0, interner.opaque(repr(value))]
+    return out
+
+
+def enc_file_sc(bio, interner):
+    """ the structured comment read back from a written file (always present: the code adds antiSMASH-Data) """
+    comment = bio.annotations.get("structured_comment")
+    if comment is None or not is_structured_comment(dict(comment)):
+        return [0]
+    return [1] + enc_sc({k: dict(v) for k, v in comment.items()}, interner)
 
 
 # ------------------------------------------------------------------ synthetic stream
@@ -379,7 +452,7 @@ class Synth:
         elif order < 0.8:
             rng.shuffle(feats)
         return {"n": n, "circular": circular, "start": start, "end": end, "seq": seq, "feats": feats,
-                "cands": cands, "subs": subs, "consistent": not chaos}
+                "cands": cands, "subs": subs, "consistent": not chaos, "annotations": parent_annotations(rng)}
 
     def motif_sub(self, n, lo, hi, strand):
         rng = self.rng
@@ -398,6 +471,67 @@ class Synth:
         return [(s, e, strand)]
 
 
+def parent_annotations(rng, allow_missing=True):
+    """ extra annotations of the parent SeqRecord, in insertion order: what a GenBank parser, add_antismash_comments
+        (Version, Run date, Original ID, the --start/--end NOTE) or an earlier antiSMASH run (a region file used as
+        input: NOTE, Orig. start, Orig. end already there) leave behind """
+    annotations = {}
+    if rng.random() < 0.5:
+        annotations["source"] = "Streptomyces sp."
+    if rng.random() < 0.3:
+        annotations["taxonomy"] = ["Bacteria", "Actinomycetota"]
+    r = rng.random()
+    if allow_missing and r < 0.25:
+        pass                                        # no structured comment at all
+    elif allow_missing and r < 0.3:
+        annotations["structured_comment"] = {}      # ... or an empty one
+    else:
+        comment = {}
+        if rng.random() < 0.3:
+            comment["Genome-Assembly-Data"] = {"Assembly Method": "SPAdes v. 3.15", "Coverage": str(rng.randint(5, 90))}
+        r = rng.random()
+        if allow_missing and r < 0.1:
+            pass                                    # structured comments, but none from antiSMASH
+        elif allow_missing and r < 0.15:
+            comment["antiSMASH-Data"] = {}
+        else:
+            table = {"Version": rng.choice(["7.1.0", "8.0.0-abc"]), "Run date": "2026-01-0%d 10:00:00" % rng.randint(1, 9)}
+            if rng.random() < 0.3:
+                table["Original ID"] = "some_long_record_identifier_%d" % rng.randint(1, 9)
+            r = rng.random()
+            if r < 0.25:
+                table.update({"NOTE": "This is an extract from the original record!",
+                              "Starting at": str(rng.randint(1, 50)), "Ending at": str(rng.randint(60, 900))})
+            elif r < 0.5:
+                # an earlier region file as input
+                table["NOTE"] = rng.choice(list(NOTE_TEXTS))
+                if rng.random() < 0.5:
+                    table["Orig. end"] = str(rng.randint(1, 300))
+                table["Orig. start"] = str(rng.randint(0, 300))
+                if rng.random() < 0.5:
+                    table["Orig. end"] = str(rng.randint(1, 300))
+            if rng.random() < 0.2:
+                items = list(table.items())
+                rng.shuffle(items)
+                table = dict(items)
+            comment["antiSMASH-Data"] = table
+        if rng.random() < 0.2:
+            comment["FluData"] = {"serotype": "x"}
+        annotations["structured_comment"] = comment
+    if rng.random() < 0.3:
+        annotations["organism"] = "Streptomyces sp."
+    return annotations
+
+
+def deep_plain(value):
+    """ an independent plain copy of an annotations value (dicts and lists rebuilt, strings shared) """
+    if isinstance(value, dict):
+        return {k: deep_plain(v) for k, v in value.items()}
+    if isinstance(value, list):
+        return [deep_plain(v) for v in value]
+    return value
+
+
 def build_bio(case):
     from Bio.Seq import Seq
     from Bio.SeqFeature import SeqFeature
@@ -405,6 +539,8 @@ def build_bio(case):
     bio = SeqRecord(Seq(case["seq"]), id="rec", name="rec", description="d")
     bio.annotations["molecule_type"] = "DNA"
     bio.annotations["topology"] = "circular" if case["circular"] else "linear"
+    for key, value in case.get("annotations", {}).items():
+        bio.annotations[key] = deep_plain(value)
     for idx, (kind, parts, quals) in enumerate(case["feats"]):
         feature = SeqFeature(mk_location(parts), type=kind)
         for key, val in quals.items():
@@ -434,9 +570,10 @@ def run_synth(case):
     from Bio import SeqIO
     from antismash.common.secmet.features.region import helpers
     bio = build_bio(case)
+    interner = Interner()
     before = [feat_tuple(f, tag_by_locus) for f in bio.features]
-    flat = [PROP, 1] + enc_region(case["start"], case["end"], case["cands"], case["subs"]) + enc_seq(case["seq"]) \
-        + enc_feats(before)
+    flat = [PROP, FN] + enc_region(case["start"], case["end"], case["cands"], case["subs"]) + enc_seq(case["seq"]) \
+        + enc_feats(before) + enc_annots(bio.annotations, interner)
     data = synth_region_data(case)
     handle = io.StringIO()
     try:
@@ -447,7 +584,8 @@ def run_synth(case):
     parsed = list(SeqIO.parse(handle, "genbank"))
     assert len(parsed) == 1
     out = enc_output(str(parsed[0].seq), [feat_tuple(f, tag_by_locus) for f in parsed[0].features],
-                     read_annotations(parsed[0]), [feat_tuple(f, tag_by_locus) for f in bio.features])
+                     read_annotations(parsed[0]), [feat_tuple(f, tag_by_locus) for f in bio.features]) \
+        + enc_file_sc(parsed[0], interner) + [1] + enc_annots(bio.annotations, interner)
     return flat, out
 
 
@@ -641,13 +779,14 @@ def tag_real(feature):
 def run_real_region(record, region, bio, tmp):
     """ -> (flat, impl output, reload verdict or None when the write failed) """
     from Bio import SeqIO
+    interner = Interner()
     before = [feat_tuple(f, tag_real) for f in bio.features]
     cands = [(cc.get_candidate_cluster_number(),
               [(p.get_protocluster_number(), loc_parts(p.core_location)) for p in cc.protoclusters])
              for cc in region.candidate_clusters]
     subs = [s.get_subregion_number() for s in region.subregions]
-    flat = [PROP, 1] + enc_region(int(region.start), int(region.end), cands, subs) + enc_seq(str(record.seq)) \
-        + enc_feats(before)
+    flat = [PROP, FN] + enc_region(int(region.start), int(region.end), cands, subs) + enc_seq(str(record.seq)) \
+        + enc_feats(before) + enc_annots(bio.annotations, interner)
     path = os.path.join(tmp, f"r{region.get_region_number()}.gbk")
     try:
         region.write_to_genbank(filename=path, record=bio)
@@ -656,8 +795,91 @@ def run_real_region(record, region, bio, tmp):
     parsed = list(SeqIO.parse(path, "genbank"))
     assert len(parsed) == 1
     out = enc_output(str(parsed[0].seq), [feat_tuple(f, tag_real) for f in parsed[0].features],
-                     read_annotations(parsed[0]), [feat_tuple(f, tag_real) for f in bio.features])
+                     read_annotations(parsed[0]), [feat_tuple(f, tag_real) for f in bio.features]) \
+        + enc_file_sc(parsed[0], interner) + [1] + enc_annots(bio.annotations, interner)
     return flat, out, reload_check(record, region, path)
+
+
+# ------------------------------------------------------------------ the real output path (main.write_outputs)
+
+def genbank_text(bio):
+    from Bio import SeqIO
+    handle = io.StringIO()
+    SeqIO.write([bio], handle, "genbank")
+    return handle.getvalue()
+
+
+def output_options(rng, n, **extra):
+    """ the options add_antismash_comments / write_outputs read; --start/--end in one run out of five """
+    from types import SimpleNamespace
+    start, end = -1, -1
+    if rng.random() < 0.2:
+        start, end = rng.choice([(1, n), (-1, n), (1, -1), (5, n - 3)])
+    return SimpleNamespace(version=rng.choice(["7.1.0", "8.dev-abc123"]), start=start, end=end, **extra)
+
+
+def start_output_path(record, input_comment, original_id, options):
+    """ the first half of main.write_outputs for one Record -> (bio record, summary GenBank text, annotations) """
+    from antismash.main import add_antismash_comments
+    if input_comment is not None:
+        record.annotations["structured_comment"] = deep_plain(input_comment)
+    if original_id:
+        record.original_id = original_id
+    bio = record.to_biopython()
+    add_antismash_comments([(record, bio)], options)
+    return bio, genbank_text(bio), deep_plain(dict(bio.annotations))
+
+
+def first_difference(a, b):
+    la, lb = a.splitlines(), b.splitlines()
+    for i, (x, y) in enumerate(zip(la, lb)):
+        if x != y:
+            return f"line {i + 1}: {x.strip()!r:.90} -> {y.strip()!r:.90}"
+    return f"{len(la)} lines -> {len(lb)} lines"
+
+
+RUN_DATE = "Run date"
+
+
+def mask_run_date(text):
+    """ add_antismash_comments stamps datetime.now(): two runs of write_outputs may differ in that one line """
+    return "\n".join(("<run date>" if line.strip().startswith(RUN_DATE) else line) for line in text.splitlines())
+
+
+def call_write_outputs(record, base_options, tmp):
+    """ antismash.main.write_outputs itself, three times on the same Record: without region files, with region files,
+        without again.  The summary GenBank must be the same in all three (apart from the time stamp) and every region
+        must have its file.  Returns None or a description of the difference """
+    from types import SimpleNamespace
+    from antismash import main
+    from antismash.common import serialiser
+    texts = []
+    for step, region_gbks in enumerate([False, True, False]):
+        out_dir = os.path.join(tmp, f"wo{step}")
+        shutil.rmtree(out_dir, ignore_errors=True)
+        os.makedirs(out_dir)
+        options = SimpleNamespace(version=base_options.version, start=base_options.start, end=base_options.end,
+                                  html_enabled=False, minimal=True, region_gbks=region_gbks, output_dir=out_dir,
+                                  summary_gbk=True, zip_output=False, output_basename="summary")
+        results = serialiser.AntismashResults("input.gbk", [record], [{}], options.version)
+        try:
+            main.write_outputs(results, options)
+        except Exception as exc:  # pylint: disable=broad-except
+            return f"write_outputs(region_gbks={region_gbks}) raised {type(exc).__name__}: {str(exc)[:120]}"
+        with open(os.path.join(out_dir, "summary.gbk"), encoding="utf-8") as handle:
+            texts.append(mask_run_date(handle.read()))
+        files = sorted(name for name in os.listdir(out_dir) if name != "summary.gbk")
+        expected = sorted(f"{record.id}.region{r.get_region_number():03d}.gbk" for r in record.get_regions()) \
+            if region_gbks else []
+        if files != expected:
+            return f"write_outputs(region_gbks={region_gbks}) left the files {files}, expected {expected}"
+    if texts[1] != texts[0]:
+        return ("the summary GenBank written by write_outputs after the region files differs from the one written "
+                "without region files: " + first_difference(texts[0], texts[1]))
+    if texts[2] != texts[0]:
+        return ("a later write_outputs of the same Record gives another summary GenBank (the secmet Record kept "
+                "something from the region files): " + first_difference(texts[0], texts[2]))
+    return None
 
 
 # ------------------------------------------------------------------ known findings
@@ -707,19 +929,27 @@ RULE = ("synthetic stream: bio-level records of 12-300 bases, linear/circular, a
         "protocluster numbers -> KeyError); real stream: secmet Records of 600-3000 bases with up to 16 genes (two-exon and "
         "origin-crossing genes, prepeptides with leader/tail), 1-6 protoclusters (overlapping, origin-crossing extents and "
         "cores) and 0-2 sub-regions, create_candidate_clusters + create_regions, every region written with the shared bio "
-        "record, parsed, reloaded; non-trivial = the extract keeps at least two features and either the region does not "
+        "record, parsed, reloaded; parent annotations (both streams): with / without structured_comment, empty one, "
+        "structured comments without antiSMASH-Data, empty antiSMASH-Data, Version / Run date / Original ID, the --start/--end "
+        "NOTE with Starting at / Ending at, NOTE / Orig. start / Orig. end of an earlier region file in any order, other "
+        "tables before and after, other top-level annotations; real stream as in main.write_outputs: to_biopython -> "
+        "add_antismash_comments (options.version / start / end, original_id, 30% with structured comments of the input) -> "
+        "all region files with the shared bio record -> summary GenBank text compared with the text before the region "
+        "files; for the first 40 (quick) / 600 (thorough) records with regions antismash.main.write_outputs itself is run "
+        "with region_gbks off / on / off and the three summary files compared (time stamp masked); "
+        "non-trivial = the extract keeps at least two features and either the region does not "
         "start at 0 or it crosses the origin; distinct by flat encoding")
 
 
 def decide(chk, idx, flat, out, verdict, consistent, reload_msg, known, describe):
-    """ decision rule for one case: verdict = [all, 6 flags, 6 guards] from fn 101 """
-    if verdict is None or len(verdict) != 13:
+    """ decision rule for one case: verdict = [all, NF flags, NF guards] from fn 102 """
+    if verdict is None or len(verdict) != 1 + 2 * NF:
         if out[0] == 0:
             chk.violation("broken-correspondence", "specification function did not decode the implementation's output",
-                          {"theorem_or_correspondence": "C12 fn 101", "flat": flat, "implementation": out})
+                          {"theorem_or_correspondence": "C12 fn 102", "flat": flat, "implementation": out})
         return
-    flags, guards = verdict[1:7], verdict[7:13]
-    failed = [i for i in range(6) if not flags[i]]
+    flags, guards = verdict[1:1 + NF], verdict[1 + NF:1 + 2 * NF]
+    failed = [i for i in range(NF) if not flags[i]]
     classes = []
     for i in failed:
         if guards[i]:
@@ -728,17 +958,18 @@ def decide(chk, idx, flat, out, verdict, consistent, reload_msg, known, describe
             classes.append((i, CLASS_OF_FLAG.get(i)))
     for i, cls in classes:
         chk.count(describe["stream"] + "_spec_fail_" + FLAG_NAMES[i] + ("" if cls is None else f"[{cls}]"))
-        if not consistent:
+        if not consistent and i not in (6, 7):
+            # synthetic cases: only the two annotation flags are decided (the annotations are realistic in every case)
             continue
         if cls is not None and cls in known:
             chk.known(known[cls]["what_fails"])
             continue
         chk.violation("counterexample", f"written region file violates the property: {FLAG_NAMES[i]}"
                       + (f" (class {cls}, not recorded as known)" if cls else ""),
-                      {"theorem_or_correspondence": "C12 specification fn 101", "flat": flat, "implementation": out,
+                      {"theorem_or_correspondence": "C12 specification fn 102", "flat": flat, "implementation": out,
                        "input": describe, "flags": dict(zip(FLAG_NAMES, flags)), "guards": dict(zip(FLAG_NAMES, guards))})
     if reload_msg:
-        bad_guards = [i for i in range(6) if not guards[i]]
+        bad_guards = [i for i in range(NF) if not guards[i]]
         cls = None
         if bad_guards:
             cls = CLASS_OF_FLAG.get(bad_guards[0])
@@ -779,8 +1010,13 @@ def run(chk):
         meta.append({"consistent": False, "reload": None,
                      "describe": {"stream": "synthetic", "length": case["n"], "circular": case["circular"],
                                   "region": [case["start"], case["end"]], "candidates": case["cands"], "subs": case["subs"],
-                                  "features": [(k, loc_str(p), q) for k, p, q in case["feats"]]}})
+                                  "features": [(k, loc_str(p), q) for k, p, q in case["feats"]],
+                                  "parent_annotations": case["annotations"]}})
         chk.count("synthetic")
+        comment = case["annotations"].get("structured_comment")
+        chk.count("synthetic_parent_" + ("without_structured_comment" if comment is None else
+                                         "with_antiSMASH-Data" if "antiSMASH-Data" in comment else
+                                         "with_structured_comment_only"))
         chk.count("synthetic_crossing" if crossing else "synthetic_linear_region")
         if out[0] == 1:
             chk.count("error_" + common.ERR_NAME.get(out[1], str(out[1])))
@@ -791,6 +1027,9 @@ def run(chk):
     real = RealGen(chk.rng)
     corpus = list(CORPUS)
     tmp = tempfile.mkdtemp(prefix="asv_c12_")
+    n_write_outputs = 40 if quick else 600
+    wo_done = 0
+    late = []     # violations of the output-path stream: reported after the per-region ones (those carry a flat case)
     try:
         built = 0
         for _ in range(n_real):
@@ -811,7 +1050,23 @@ def run(chk):
                 continue
             built += 1
             chk.count("real_records")
-            bio = record.to_biopython()
+            # as in main.write_outputs: one bio record per Record, the antiSMASH comment added to it, then every region
+            # file written with that shared bio record, then the summary GenBank of the full record
+            input_comment = None
+            if chk.rng.random() < 0.3:
+                # structured comments of the input file, as the GenBank parser leaves them
+                input_comment = parent_annotations(chk.rng, False)["structured_comment"]
+            original_id = "an_original_identifier_that_was_too_long" if chk.rng.random() < 0.3 else None
+            options = output_options(chk.rng, n)
+            bio, summary_before, annotations_before = start_output_path(record, input_comment, original_id, options)
+            record_desc = {"stream": "real output path", "length": n, "circular": circular,
+                           "genes": [loc_str(g) for g in genes], "protoclusters (core, extent, product)": protos,
+                           "subregions": subs, "regions": [str(r.location) for r in record.get_regions()],
+                           "options": {"version": options.version, "start": options.start, "end": options.end},
+                           "annotations_before": annotations_before,
+                           "rebuild": {"n": n, "circular": circular, "genes": genes, "protos": protos, "subs": subs,
+                                       "peps": sorted(peps.items()), "seq": seq, "input_comment": input_comment,
+                                       "original_id": original_id}}
             for region in record.get_regions():
                 flat, out, reload_msg = run_real_region(record, region, bio, tmp)
                 cases.append(flat)
@@ -847,16 +1102,37 @@ def run(chk):
                 kept = out[1 + 1 + case_len(out)] if out[0] == 0 else 0
                 chk.note_case(flat, out[0] == 0 and kept >= 2 and (int(region.start) != 0 or crossing),
                               desc if 3 <= len(chk.samples) < 6 else None)
+            # the summary GenBank written now must be the one that would have been written before the region files
+            chk.count("output_path_records")
+            summary_after = genbank_text(bio)
+            if summary_after != summary_before or deep_plain(dict(bio.annotations)) != annotations_before:
+                record_desc["annotations_after"] = deep_plain(dict(bio.annotations))
+                record_desc["first_difference"] = first_difference(summary_before, summary_after)
+                chk.count("output_path_summary_changed")
+                late.append(("counterexample", "writing the region files changed the full record: the summary GenBank "
+                             "written afterwards differs from the one written before (" + record_desc["first_difference"] + ")",
+                             {"theorem_or_correspondence": "main.write_outputs order: add_antismash_comments -> "
+                              "Region.write_to_genbank (all regions) -> SeqIO.write(full record)", "input": record_desc}))
+            if record.get_regions() and wo_done < n_write_outputs:
+                wo_done += 1
+                chk.count("write_outputs_runs")
+                message = call_write_outputs(record, options, tmp)
+                if message:
+                    chk.count("write_outputs_failed")
+                    late.append(("counterexample", message, {"theorem_or_correspondence": "antismash.main.write_outputs "
+                                 "(region_gbks off / on / off, summary_gbk on)", "input": record_desc}))
     finally:
         shutil.rmtree(tmp, ignore_errors=True)
 
     for i, m in enumerate(meta):
         if "subs" not in m["describe"]:
             m["describe"]["subs"] = m["describe"].get("subs", [])
-    model_outs = common.correspondence(chk, cases, impl_outs, spec_fn_offset=100, describe=describe_flat)
+    by_case = {tuple(c): m["describe"] for c, m in zip(cases, meta)}
+    model_outs = common.correspondence(chk, cases, impl_outs, spec_fn_offset=100,
+                                       describe=lambda flat: dict(describe_flat(flat), **by_case.get(tuple(flat), {})))
     # the decidable specification on every implementation output
     ok_idx = [i for i, out in enumerate(impl_outs) if out[0] == 0]
-    spec_cases = [[PROP, 101] + cases[i][2:] + impl_outs[i] for i in ok_idx]
+    spec_cases = [[PROP, FN + 100] + cases[i][2:] + impl_outs[i] for i in ok_idx]
     verdicts = common.run_driver(spec_cases)
     for i, verdict in zip(ok_idx, verdicts):
         decide(chk, i, cases[i], impl_outs[i], verdict, meta[i]["consistent"], meta[i]["reload"], known, meta[i]["describe"])
@@ -865,12 +1141,21 @@ def run(chk):
             chk.violation("counterexample", "write_to_genbank raised on a well-formed region",
                           {"theorem_or_correspondence": "write_to_genbank", "flat": cases[i], "implementation": out,
                            "input": meta[i]["describe"]})
+    for kind, what, doc in late:
+        chk.violation(kind, what, doc)
     chk.crosscheck_vm(cases, model_outs, k=60 if quick else 400)
     return chk.finish(RULE, trusted_extra=[
         "Biopython 1.81 SeqRecord slicing/addition, GenBank writer and parser: transcribed (slicing) or not modelled "
         "(text round trip); covered by the correspondence run only",
         "Record.from_genbank reload of the written files is checked on the implementation side (harness/c12.py "
-        "reload_check), not against a Coq model"])
+        "reload_check), not against a Coq model",
+        "copy.deepcopy / dict.setdefault / item assignment on the annotations are modelled as operations on a heap of "
+        "dict objects (three levels: annotations -> structured_comment -> tables); other annotation values are opaque "
+        "and assumed immutable; the structure is assumed to be a tree (no dict reachable twice), as the GenBank parser "
+        "and add_antismash_comments build it",
+        "the output path stream (add_antismash_comments -> region files -> summary GenBank; main.write_outputs with "
+        "region_gbks off/on/off) is checked on the implementation side only; Record.to_biopython, SeqIO.write and "
+        "main.write_outputs are not modelled"])
 
 
 def case_len(out):
@@ -880,11 +1165,40 @@ def case_len(out):
 
 def replay(chk, path):
     doc = json.load(open(path))
+    if "flat" not in doc:
+        return replay_output_path(doc)
     flat = doc["flat"]
     model = common.run_driver([flat])[0]
     print("model:", model)
     print("recorded implementation:", doc.get("implementation"))
     if doc.get("implementation") and doc["implementation"][0] == 0:
-        print("specification verdict [all, flags x6, guards x6]:",
-              common.run_driver([[PROP, 101] + flat[2:] + doc["implementation"]])[0])
+        print("specification verdict [all, flags, guards] (flags: " + ", ".join(FLAG_NAMES) + "):",
+              common.run_driver([[PROP, flat[1] + 100] + flat[2:] + doc["implementation"]])[0])
+    return 0
+
+
+def replay_output_path(doc):
+    """ a violation of the output-path stream: the Record is rebuilt and taken through the same steps again """
+    from types import SimpleNamespace
+    info = doc["input"]["rebuild"]
+
+    def tup(x):
+        return tuple(tup(y) for y in x) if isinstance(x, list) else x
+    genes = [[tup(p) for p in g] for g in info["genes"]]
+    record, _ = build_real({int(k): tup(v) for k, v in info["peps"]}, info["n"], info["circular"], genes,
+                           [tup(p) for p in info["protos"]], [tup(x) for x in info["subs"]], info["seq"])
+    options = SimpleNamespace(**doc["input"]["options"])
+    bio, before, annotations = start_output_path(record, info["input_comment"], info["original_id"], options)
+    tmp = tempfile.mkdtemp(prefix="asv_c12_")
+    try:
+        for region in record.get_regions():
+            region.write_to_genbank(directory=tmp, record=bio)
+        after = genbank_text(bio)
+        print("annotations before the region files:", annotations)
+        print("annotations after the region files: ", deep_plain(dict(bio.annotations)))
+        print("summary GenBank unchanged by the region files:", after == before,
+              "" if after == before else "(" + first_difference(before, after) + ")")
+        print("main.write_outputs off/on/off:", call_write_outputs(record, options, tmp) or "same summary")
+    finally:
+        shutil.rmtree(tmp, ignore_errors=True)
     return 0
